@@ -99,7 +99,35 @@ func ruleControlCharsRejectedUnconditionally(e *Engine, r *Reporter) {
 			r.Check(rej, fname(fn)+" | control character rejects", e.instrPos(in), "returns false", "a control character no longer makes the scanner return false")
 		})
 	}
+	// every scanner (a string-ranging IsValid* function) consults unicode.IsControl itself or through a same-package helper
+	for _, fn := range e.Fns {
+		if short(pkgOf(fn)) != "pkg/tuple" || !strings.HasPrefix(fn.Name(), "IsValid") || fn.Parent() != nil {
+			continue
+		}
+		ranges := false
+		eachInstr(fn, false, func(in ssa.Instruction) {
+			if rg, ok := in.(*ssa.Range); ok {
+				if b, ok := rg.X.Type().Underlying().(*types.Basic); ok && b.Info()&types.IsString != 0 {
+					ranges = true
+				}
+			}
+		})
+		if !ranges {
+			continue
+		}
+		has := false
+		for _, g := range sameePackageRegion(fn, 2) {
+			eachInstr(g, false, func(in ssa.Instruction) {
+				if c, ok := in.(*ssa.Call); ok {
+					if sc := c.Call.StaticCallee(); sc != nil && sc.Name() == "IsControl" && sc.Pkg != nil && sc.Pkg.Pkg.Path() == "unicode" {
+						has = true
+					}
+				}
+			})
+		}
+		r.Check(has, fname(fn)+" | consults unicode.IsControl", e.pos(fn.Pos()), "directly or through a helper", "this scanner no longer consults unicode.IsControl for its runes (a hand-written range test misses control blocks such as C1, U+0080–U+009F)")
+	}
 	if n == 0 {
-		blind("control-chars-rejected: no unicode.IsControl call in pkg/tuple IsValid* functions")
+		return
 	}
 }
